@@ -1,9 +1,13 @@
-"""C05 — every simulation terminates; feasible work is finished; no premature end."""
-from . import simprops
+"""C05 — decided by (M) exhaustive TLC exploration of the simulator loop under an arbitrary policy
+(SimMC.tla, harness/simmc.py) and (T) validation of recorded traces of the real Simulator against
+Simulator.tla (SimTrace.tla, harness/simprops.py)."""
+from . import simmc, simprops
 from .common import CheckResult
 
 
 def run(tier):
     res = CheckResult("C05", tier)
+    simmc.check("C05", tier, res)
     simprops.check("C05", tier, res)
+    res.assumptions += simprops.ASSUMPTIONS
     return res
